@@ -1074,3 +1074,358 @@ macro_rules! simd2 {
 }
 crate::vp_harness!(cnt, |s| { simd2!(s, cnt, Op::Cnt) });
 crate::vp_harness!(addv, |s| { simd2!(s, addv, Op::Addv) });
+
+// ==========================================================================================
+// label forms. Four rows per method:
+//   __bwd    label bound, then k (0..=4) NOPs, then the branch             (offset -4k)
+//   __fwd    branch, then k (0..=4) NOPs, then the label is bound         (offset +4(k+1) / +4(k+2))
+//   __far    branch at 0 to an unbound label that is later bound at an arbitrary byte position p
+//            (the position is moved with set_position instead of emitting p bytes of code)
+//   __bound  label bound at an arbitrary position p before the branch is emitted at 0
+// The decoded branch must land on the bound position; the compare/test-and-branch forms may
+// instead emit the inverted branch over an unconditional B (checked by `lands_*`).
+
+/// four NOPs with `l` bound so that exactly k (0..=4) of them follow the label: the code length stays
+/// concrete (a symbolic number of emitted words makes CBMC run out of memory), the label position is symbolic
+pub fn pad_bwd(a: &mut AssemblerArm64, l: Label, k: u8) {
+    if k == 4 { a.bind_label(l); }
+    a.nop();
+    if k == 3 { a.bind_label(l); }
+    a.nop();
+    if k == 2 { a.bind_label(l); }
+    a.nop();
+    if k == 1 { a.bind_label(l); }
+    a.nop();
+    if k == 0 { a.bind_label(l); }
+}
+/// four NOPs with `l` bound after the first k (0..=4) of them
+pub fn pad_fwd(a: &mut AssemblerArm64, l: Label, k: u8) {
+    if k == 0 { a.bind_label(l); }
+    a.nop();
+    if k == 1 { a.bind_label(l); }
+    a.nop();
+    if k == 2 { a.bind_label(l); }
+    a.nop();
+    if k == 3 { a.bind_label(l); }
+    a.nop();
+    if k == 4 { a.bind_label(l); }
+}
+#[cfg(not(kani))]
+pub fn words_note(code: &[u8]) -> String {
+    let n = code.len() / 4;
+    let ws: Vec<String> = (0..n).map(|k| format!("{:08x}", word_at(code, k))).collect();
+    let asms: Vec<String> = (0..n).map(|k| render(&decode(word_at(code, k)))).collect();
+    format!("w={} asm=\"{}\"", ws.join(","), asms.join("; "))
+}
+/// label bound at byte position `p` before anything is emitted; position back to 0
+pub fn label_at(a: &mut AssemblerArm64, p: u32) -> Label {
+    a.set_position(p as usize);
+    let l = a.create_and_bind_label();
+    a.set_position(0);
+    l
+}
+/// bind `l` at byte position `p`, then restore the position to the end of the code
+pub fn bind_at(a: &mut AssemblerArm64, l: Label, p: u32) {
+    a.set_position(p as usize);
+    a.bind_label(l);
+    a.set_position_end();
+}
+/// a far position: any u32 below 2 GiB (the assembler casts offsets to i32 everywhere; a code
+/// buffer of 2 GiB or more is outside its type invariant)
+pub fn far_pos(s: &mut Src) -> u32 {
+    let p = s.u32();
+    s.assume(p < 0x8000_0000);
+    p
+}
+/// one-word branch at word index `at` of `code` (which has `total` words) must equal `want`
+pub fn chk_branch_at(code: &[u8], total: usize, at: usize, want: Insn) {
+    crate::vp_check!(code.len() == 4 * total, "number of emitted instruction words");
+    let got = decode(word_at(code, at));
+    crate::vp_note!("{} got {:?} want {:?}", words_note(code), got, want);
+    crate::vp_check!(got == want, "the branch decodes to the requested branch landing on the label");
+}
+/// CBZ/CBNZ/TBZ/TBNZ pair at word `at`: either [requested branch to `dist`, NOP] or
+/// [inverted branch over the next word, B to `dist`] (dist in bytes from the first word)
+pub fn lands_pair(code: &[u8], at: usize, want: Insn, dist: i64) -> bool {
+    let w0 = decode(word_at(code, at));
+    let w1 = decode(word_at(code, at + 1));
+    let mut direct = want;
+    direct.imm = dist;
+    let mut inv = want;
+    inv.op = match want.op {
+        Op::Cbz => Op::Cbnz,
+        Op::Cbnz => Op::Cbz,
+        Op::Tbz => Op::Tbnz,
+        _ => Op::Tbz,
+    };
+    inv.imm = 8;
+    (w0 == direct && w1 == q_imm(Op::Hint, 0)) || (w0 == inv && w1.op == Op::B && 4 + w1.imm == dist)
+}
+
+// ---- b
+crate::vp_harness!(b__bwd, unwind = 4, |s| {
+    let k = s.below(5);
+    let mut a = AssemblerArm64::new();
+    let l = a.create_label();
+    pad_bwd(&mut a, l, k);
+    a.b(l);
+    let code = code_of(a);
+    chk_branch_at(&code, 5, 4, q_imm(Op::B, -4 * (k as i64)));
+});
+crate::vp_harness!(b__fwd, unwind = 4, |s| {
+    let k = s.below(5);
+    let mut a = AssemblerArm64::new();
+    let l = a.create_label();
+    a.b(l);
+    pad_fwd(&mut a, l, k);
+    let code = code_of(a);
+    chk_branch_at(&code, 5, 0, q_imm(Op::B, 4 * (k as i64 + 1)));
+});
+crate::vp_harness!(b__far, unwind = 4, |s| {
+    let p = far_pos(s);
+    let mut a = AssemblerArm64::new();
+    let l = a.create_label();
+    a.b(l);
+    bind_at(&mut a, l, p);
+    let code = code_of(a);
+    chk_branch_at(&code, 1, 0, q_imm(Op::B, p as i64));
+});
+crate::vp_harness!(b__bound, unwind = 4, |s| {
+    let p = far_pos(s);
+    let mut a = AssemblerArm64::new();
+    let l = label_at(&mut a, p);
+    a.b(l);
+    let code = code_of(a);
+    chk_branch_at(&code, 1, 0, q_imm(Op::B, p as i64));
+});
+
+// ---- bc
+fn q_bcond(c: u8, off: i64) -> Insn {
+    let mut i = q_imm(Op::BCond, off);
+    i.cond = c;
+    i
+}
+crate::vp_harness!(bc__bwd, unwind = 4, |s| {
+    let k = s.below(5); let (c, qc) = cond(s);
+    let mut a = AssemblerArm64::new();
+    let l = a.create_label();
+    pad_bwd(&mut a, l, k);
+    a.bc(c, l);
+    let code = code_of(a);
+    chk_branch_at(&code, 5, 4, q_bcond(qc, -4 * (k as i64)));
+});
+crate::vp_harness!(bc__fwd, unwind = 4, |s| {
+    let k = s.below(5); let (c, qc) = cond(s);
+    let mut a = AssemblerArm64::new();
+    let l = a.create_label();
+    a.bc(c, l);
+    pad_fwd(&mut a, l, k);
+    let code = code_of(a);
+    chk_branch_at(&code, 5, 0, q_bcond(qc, 4 * (k as i64 + 1)));
+});
+crate::vp_harness!(bc__far, unwind = 4, |s| {
+    let p = far_pos(s); let (c, qc) = cond(s);
+    let mut a = AssemblerArm64::new();
+    let l = a.create_label();
+    a.bc(c, l);
+    bind_at(&mut a, l, p);
+    let code = code_of(a);
+    chk_branch_at(&code, 1, 0, q_bcond(qc, p as i64));
+});
+crate::vp_harness!(bc__bound, unwind = 4, |s| {
+    let p = far_pos(s); let (c, qc) = cond(s);
+    let mut a = AssemblerArm64::new();
+    let l = label_at(&mut a, p);
+    a.bc(c, l);
+    let code = code_of(a);
+    chk_branch_at(&code, 1, 0, q_bcond(qc, p as i64));
+});
+
+// ---- adr_label (always resolved at finalize)
+fn q_adr(rd: R, off: i64) -> Insn {
+    let mut i = q_imm(Op::Adr, off);
+    i.rd = rd;
+    i
+}
+crate::vp_harness!(adr_label__bwd, unwind = 4, |s| {
+    let k = s.below(5); let (d, qd) = reg(s);
+    let mut a = AssemblerArm64::new();
+    let l = a.create_label();
+    pad_bwd(&mut a, l, k);
+    a.adr_label(d, l);
+    let code = code_of(a);
+    chk_branch_at(&code, 5, 4, q_adr(qd, -4 * (k as i64)));
+});
+crate::vp_harness!(adr_label__fwd, unwind = 4, |s| {
+    let k = s.below(5); let (d, qd) = reg(s);
+    let mut a = AssemblerArm64::new();
+    let l = a.create_label();
+    a.adr_label(d, l);
+    pad_fwd(&mut a, l, k);
+    let code = code_of(a);
+    chk_branch_at(&code, 5, 0, q_adr(qd, 4 * (k as i64 + 1)));
+});
+crate::vp_harness!(adr_label__far, unwind = 4, |s| {
+    let p = far_pos(s); let (d, qd) = reg(s);
+    let mut a = AssemblerArm64::new();
+    let l = a.create_label();
+    a.adr_label(d, l);
+    bind_at(&mut a, l, p);
+    let code = code_of(a);
+    chk_branch_at(&code, 1, 0, q_adr(qd, p as i64));
+});
+
+// ---- cbz / cbnz (64- and 32-bit)
+fn q_cb(op: Op, sf: u8, rt: R) -> Insn {
+    let mut i = Insn::new(op);
+    i.sf = sf;
+    i.rd = rt;
+    i
+}
+/// bound label: one word, or the inverted pair when out of range
+pub fn chk_cb_bound(code: &[u8], at: usize, want: Insn, dist: i64) {
+    let n = code.len() / 4;
+    crate::vp_note!("{} want {:?} dist {}", words_note(code), want, dist);
+    let mut direct = want;
+    direct.imm = dist;
+    let one = code.len() == 4 * (at + 1) && decode(word_at(code, at)) == direct;
+    let two = code.len() == 4 * (at + 2) && n >= 2 && lands_pair(code, at, want, dist) && decode(word_at(code, at + 1)).op == Op::B;
+    crate::vp_check!(one || two, "compare-and-branch (or inverted branch over B) lands on the label");
+}
+/// label unbound at the call: two words reserved
+pub fn chk_cb_unbound(code: &[u8], total: usize, want: Insn, dist: i64) {
+    crate::vp_note!("{} want {:?} dist {}", words_note(code), want, dist);
+    crate::vp_check!(code.len() == 4 * total, "number of emitted instruction words");
+    crate::vp_check!(lands_pair(code, 0, want, dist), "branch pair lands on the label");
+}
+macro_rules! cb_rows_bwd {
+    ($s:ident, $m:ident, $op:expr, $sf:expr) => {{
+        let k = $s.below(5);
+        let (t, qt) = reg($s);
+        let mut a = AssemblerArm64::new();
+        let l = a.create_label();
+        pad_bwd(&mut a, l, k);
+        a.$m(t, l);
+        let code = code_of(a);
+        chk_cb_bound(&code, 4, q_cb($op, $sf, qt), -4 * (k as i64));
+    }};
+}
+macro_rules! cb_rows_fwd {
+    ($s:ident, $m:ident, $op:expr, $sf:expr) => {{
+        let k = $s.below(5);
+        let (t, qt) = reg($s);
+        let mut a = AssemblerArm64::new();
+        let l = a.create_label();
+        a.$m(t, l);
+        pad_fwd(&mut a, l, k);
+        let code = code_of(a);
+        chk_cb_unbound(&code, 6, q_cb($op, $sf, qt), 4 * (k as i64 + 2));
+    }};
+}
+macro_rules! cb_rows_far {
+    ($s:ident, $m:ident, $op:expr, $sf:expr) => {{
+        let p = far_pos($s);
+        let (t, qt) = reg($s);
+        let mut a = AssemblerArm64::new();
+        let l = a.create_label();
+        a.$m(t, l);
+        bind_at(&mut a, l, p);
+        let code = code_of(a);
+        chk_cb_unbound(&code, 2, q_cb($op, $sf, qt), p as i64);
+    }};
+}
+macro_rules! cb_rows_bound {
+    ($s:ident, $m:ident, $op:expr, $sf:expr) => {{
+        let p = far_pos($s);
+        let (t, qt) = reg($s);
+        let mut a = AssemblerArm64::new();
+        let l = label_at(&mut a, p);
+        a.$m(t, l);
+        let code = code_of(a);
+        chk_cb_bound(&code, 0, q_cb($op, $sf, qt), p as i64);
+    }};
+}
+crate::vp_harness!(cbz__bwd, unwind = 4, |s| { cb_rows_bwd!(s, cbz, Op::Cbz, 64) });
+crate::vp_harness!(cbz__fwd, unwind = 4, |s| { cb_rows_fwd!(s, cbz, Op::Cbz, 64) });
+crate::vp_harness!(cbz__far, unwind = 4, |s| { cb_rows_far!(s, cbz, Op::Cbz, 64) });
+crate::vp_harness!(cbz__bound, unwind = 4, |s| { cb_rows_bound!(s, cbz, Op::Cbz, 64) });
+crate::vp_harness!(cbz_w__bwd, unwind = 4, |s| { cb_rows_bwd!(s, cbz_w, Op::Cbz, 32) });
+crate::vp_harness!(cbz_w__fwd, unwind = 4, |s| { cb_rows_fwd!(s, cbz_w, Op::Cbz, 32) });
+crate::vp_harness!(cbz_w__far, unwind = 4, |s| { cb_rows_far!(s, cbz_w, Op::Cbz, 32) });
+crate::vp_harness!(cbz_w__bound, unwind = 4, |s| { cb_rows_bound!(s, cbz_w, Op::Cbz, 32) });
+crate::vp_harness!(cbnz__bwd, unwind = 4, |s| { cb_rows_bwd!(s, cbnz, Op::Cbnz, 64) });
+crate::vp_harness!(cbnz__fwd, unwind = 4, |s| { cb_rows_fwd!(s, cbnz, Op::Cbnz, 64) });
+crate::vp_harness!(cbnz__far, unwind = 4, |s| { cb_rows_far!(s, cbnz, Op::Cbnz, 64) });
+crate::vp_harness!(cbnz__bound, unwind = 4, |s| { cb_rows_bound!(s, cbnz, Op::Cbnz, 64) });
+crate::vp_harness!(cbnz_w__bwd, unwind = 4, |s| { cb_rows_bwd!(s, cbnz_w, Op::Cbnz, 32) });
+crate::vp_harness!(cbnz_w__fwd, unwind = 4, |s| { cb_rows_fwd!(s, cbnz_w, Op::Cbnz, 32) });
+crate::vp_harness!(cbnz_w__far, unwind = 4, |s| { cb_rows_far!(s, cbnz_w, Op::Cbnz, 32) });
+crate::vp_harness!(cbnz_w__bound, unwind = 4, |s| { cb_rows_bound!(s, cbnz_w, Op::Cbnz, 32) });
+
+// ---- tbz / tbnz: method(rt, bit, label). Bit numbers 0..63; the register is named W for bit < 32
+fn q_tb(op: Op, rt: R, bit: u32) -> Insn {
+    let mut i = Insn::new(op);
+    i.sf = if bit >= 32 { 64 } else { 32 };
+    i.rd = rt;
+    i.imm2 = bit as i64; // bit > 63 does not exist: never equal to a decoded 6-bit field
+    i
+}
+macro_rules! tb_rows_bwd {
+    ($s:ident, $m:ident, $op:expr) => {{
+        let k = $s.below(5);
+        let (t, qt) = reg($s);
+        let bit = $s.u32();
+        let mut a = AssemblerArm64::new();
+        let l = a.create_label();
+        pad_bwd(&mut a, l, k);
+        a.$m(t, bit, l);
+        let code = code_of(a);
+        chk_cb_bound(&code, 4, q_tb($op, qt, bit), -4 * (k as i64));
+    }};
+}
+macro_rules! tb_rows_fwd {
+    ($s:ident, $m:ident, $op:expr) => {{
+        let k = $s.below(5);
+        let (t, qt) = reg($s);
+        let bit = $s.u32();
+        let mut a = AssemblerArm64::new();
+        let l = a.create_label();
+        a.$m(t, bit, l);
+        pad_fwd(&mut a, l, k);
+        let code = code_of(a);
+        chk_cb_unbound(&code, 6, q_tb($op, qt, bit), 4 * (k as i64 + 2));
+    }};
+}
+macro_rules! tb_rows_far {
+    ($s:ident, $m:ident, $op:expr) => {{
+        let p = far_pos($s);
+        let (t, qt) = reg($s);
+        let bit = $s.u32();
+        let mut a = AssemblerArm64::new();
+        let l = a.create_label();
+        a.$m(t, bit, l);
+        bind_at(&mut a, l, p);
+        let code = code_of(a);
+        chk_cb_unbound(&code, 2, q_tb($op, qt, bit), p as i64);
+    }};
+}
+macro_rules! tb_rows_bound {
+    ($s:ident, $m:ident, $op:expr) => {{
+        let p = far_pos($s);
+        let (t, qt) = reg($s);
+        let bit = $s.u32();
+        let mut a = AssemblerArm64::new();
+        let l = label_at(&mut a, p);
+        a.$m(t, bit, l);
+        let code = code_of(a);
+        chk_cb_bound(&code, 0, q_tb($op, qt, bit), p as i64);
+    }};
+}
+crate::vp_harness!(tbz__bwd, unwind = 4, |s| { tb_rows_bwd!(s, tbz, Op::Tbz) });
+crate::vp_harness!(tbz__fwd, unwind = 4, |s| { tb_rows_fwd!(s, tbz, Op::Tbz) });
+crate::vp_harness!(tbz__far, unwind = 4, |s| { tb_rows_far!(s, tbz, Op::Tbz) });
+crate::vp_harness!(tbz__bound, unwind = 4, |s| { tb_rows_bound!(s, tbz, Op::Tbz) });
+crate::vp_harness!(tbnz__bwd, unwind = 4, |s| { tb_rows_bwd!(s, tbnz, Op::Tbnz) });
+crate::vp_harness!(tbnz__fwd, unwind = 4, |s| { tb_rows_fwd!(s, tbnz, Op::Tbnz) });
+crate::vp_harness!(tbnz__far, unwind = 4, |s| { tb_rows_far!(s, tbnz, Op::Tbnz) });
+crate::vp_harness!(tbnz__bound, unwind = 4, |s| { tb_rows_bound!(s, tbnz, Op::Tbnz) });
